@@ -47,26 +47,26 @@ type ifaceAssert struct {
 }
 
 type Obligation struct {
-	Name    string // <pkg>.<Func>#<kind>:<label>[@site]
-	Func    string
-	Kind    string
-	Label   string
-	Props   []string
-	Query   string   // SMT text (without check-sat)
-	Values  []string // terms to get-value
-	Trace   string
-	Result  SolveResult
-	Vacuity bool // must be SAT (reachability / satisfiable precondition)
-	Canary  bool // must NOT be unsat
-	Probe   bool // informational dead-code probe (debug)
-	Inputs  map[string]string // human name -> SMT term
-	Clause  string
+	Name        string // <pkg>.<Func>#<kind>:<label>[@site]
+	Func        string
+	Kind        string
+	Label       string
+	Props       []string
+	Query       string   // SMT text (without check-sat)
+	Values      []string // terms to get-value
+	Trace       string
+	Result      SolveResult
+	Vacuity     bool              // must be SAT (reachability / satisfiable precondition)
+	Canary      bool              // must NOT be unsat
+	Probe       bool              // informational dead-code probe (debug)
+	Inputs      map[string]string // human name -> SMT term
+	Clause      string
 	ResultTerms []string
-	lines   []string
-	goal    string
-	funcKey string
-	inputVals map[string]Val
-	extraVars map[string]Val
+	lines       []string
+	goal        string
+	funcKey     string
+	inputVals   map[string]Val
+	extraVars   map[string]Val
 }
 
 func (ex *Exec) pkgByName(name string) *types.Package { return ex.byName[name] }
